@@ -638,7 +638,8 @@ impl NetGen {
                 },
                 2 => match self.target(n, me) {
                     Some(t) => {
-                        let d = *self.rng.pick(&[5u64, 15, 25]);
+                        // an empty budget is a budget too: the request is still made (and checked for a cycle) before the timer is looked at
+                        let d = *self.rng.pick(&[5u64, 15, 25, 0]);
                         let inner = self.plan_at(n, depth + 1, t);
                         parts.push(format!("t{t}:{d}({inner})"));
                     }
